@@ -56,6 +56,12 @@ var Vars = map[string]cty.Value{
 		"l": cty.TupleVal([]cty.Value{obj(map[string]cty.Value{"a": cty.NumberIntVal(1)}), obj(map[string]cty.Value{"a": cty.NumberIntVal(2)})}),
 	}),
 	"for": cty.StringVal("forvar"),
+	// empty collections of objects (element type of lo); sources of the splat
+	// family only
+	"leo": cty.ListValEmpty(cty.Object(map[string]cty.Type{"a": cty.Number, "b": cty.List(cty.Number)})),
+	"seo": cty.SetValEmpty(cty.Object(map[string]cty.Type{"a": cty.Number, "b": cty.List(cty.Number)})),
+	// empty list of tuples: the element type of l[*][i] depends on i
+	"let": cty.ListValEmpty(cty.Tuple([]cty.Type{cty.Number, cty.String})),
 }
 
 // VarNames in a fixed order, simplest first.
